@@ -5,7 +5,8 @@ namespace Swim.Drv.C06
 open Swim.Parse Swim.Susp
 
 def handleSusp (fs : List (String × String)) : String := Id.run do
-  let some k := getNat fs "k" | return "PARSE k"
+  let some kI := getInt fs "k" | return "PARSE k"
+  let k := kI.toNat   -- a negative k (SuspicionMult 1) behaves like 0: minimum timeout, no confirmation counts
   let some minT := getNat fs "min" | return "PARSE min"
   let some maxT := getNat fs "max" | return "PARSE max"
   let tableI := (splitNE (getD fs "table" "") ",").filterMap String.toInt?
